@@ -110,6 +110,7 @@ class Canon:
         self.ren = {}
         self.w = w
         self.stack = set()
+        self.exclude = set()
 
     def name(self, obj, prefix):
         k = id(obj)
@@ -178,8 +179,9 @@ class Canon:
             return None
         loc = fr.loc
         items = []
+        qn = fr.closure.qualname if fr.closure else None
         for k in sorted(fr.vars):
-            if k in exclude or k in getattr(fr, "canon_exclude", ()):
+            if k in exclude or k in getattr(fr, "canon_exclude", ()) or (qn, k) in self.exclude:
                 continue
             items.append((k, self.c(fr.vars[k])))
         ctx = tuple(self.ctx(x) for x in getattr(fr, "ctx", []))
@@ -316,6 +318,7 @@ class Bisim:
                 return
             # joint yield: cut point
             cn = Canon(w)
+            cn.exclude = set(self.canon_exclude)      # (function qualname, local name) pairs abstracted away by a cut invariant
             key = (cn.c(oi[1]), self._side_key(cn, self.impl), self._side_key(cn, self.ref))
             if not w.ch.replaying:
                 if key in seen:
